@@ -3,6 +3,7 @@ compute exactly, NaN / marker only where documented."""
 import json
 import os
 import random
+import re
 import vf
 import ddgen
 from checks import ddcommon
@@ -16,8 +17,57 @@ META = {
     "level_note": "Proved at model level; trusted: Coq kernel, extraction, the OCaml drivers, the Rust harnesses, and that Num/Natural.v / DD/SatCount.v mirror the code (checked by the lock-step runs on every check). Not proved, correspondence only: Natural's Display/Octal/Hex output and the padding with width/fill/alternate flags of all formats (the digit string of Binary is proved; decimal digits come from dashu_int::UBig) and Natural -> f64 rounding (both compared with the extracted model and Zarith/OCaml on every run); F64 as a counting type (IEEE-754 FPU and exp2 assumed; results compared with the exact count, exactly below 2^53 and within 1e-9 relative above). The digit loops of Natural::add exist in several variants in the code (in place / fresh vector, zipped / unzipped tails) which are one function in the model; clone/clone_from and memory management are run-time matters covered by the harness only. The epoch discipline of the manager (gc_count strictly increases at every gc and reordering, node ids are not recycled otherwise) is the hypothesis hist_ok of the history theorems; it is exercised by stage 2, not proved here.",
 }
 
-ALLOWED_AXIOMS = ()
-MODEL_VOS = ["Base/Conv.vo", "Num/Natural.vo", "Num/Saturating.vo"]
+# Flocq / Coq Reals (exactly the four axioms C10 lists); allowed for the floating-point theorems only
+# (names starting with one of FLOAT_PREFIXES); every other theorem must be closed under the global context
+ALLOWED_AXIOMS = (
+    "ClassicalDedekindReals.sig_forall_dec",
+    "ClassicalDedekindReals.sig_not_dec",
+    "FunctionalExtensionality.functional_extensionality_dep",
+    "Classical_Prop.classic",
+)
+FLOAT_PREFIXES = ("C12_nat_to_f64", "C12_f64_", "C12_sat_f64")
+MODEL_VOS = ["Base/Conv.vo", "Num/Natural.vo", "Num/Saturating.vo", "Num/F64Count.vo", "Num/NaturalDec.vo"]
+
+
+def audit_axioms(ctx):
+    """closedness audit (same split as checks/C10.py): vf.proof_gate compares every theorem with the allow-list;
+    here (1) axiom names whose type is wrapped onto the next line are collected too, (2) every theorem that is
+    not one of the floating-point theorems must not depend on any axiom at all."""
+    p = os.path.join(ctx.workdir, "coq.log")
+    if not os.path.exists(p):
+        return
+    txt = open(p).read()
+    names = set()
+    inblk = False
+    for l in txt.split("\n"):
+        if l.startswith("Axioms:"):
+            inblk = True
+            continue
+        if l.startswith("Closed under") or l.startswith("COQ") or l.startswith("make"):
+            inblk = False
+            continue
+        if inblk:
+            m = re.match(r"^([A-Za-z_][\w.']*)\s*(:|$)", l)
+            if m:
+                names.add(m.group(1))
+    ctx.axioms_seen = sorted(set(ctx.axioms_seen) | names)
+    pa = vf.parse_print_assumptions(txt)
+    closed = 0
+    for name, ax in zip(ctx.theorems, pa):
+        if not ax:
+            closed += 1
+        elif not name.startswith(FLOAT_PREFIXES):
+            vf.report_violation(
+                ctx, f"proof:C12:{name} is not closed under the global context: {ax}",
+                {"stage": "proof", "theorem_file": "coq/Props/C12.v", "what": f"{name} depends on {ax}"}, nfif=True)
+    ctx.stats["theorems_closed_under_global_context"] = closed
+    ctx.stats["theorems_with_flocq_axioms"] = len(ctx.theorems) - closed
+    extra = [a for a in ctx.axioms_seen if a not in ALLOWED_AXIOMS]
+    if extra:
+        vf.report_violation(
+            ctx, f"proof:C12:axioms outside the allow-list: {extra}",
+            {"stage": "proof", "theorem_file": "coq/Props/C12.v", "what": f"axioms outside the allow-list: {extra}"},
+            nfif=True)
 
 
 def build(ctx):
@@ -412,6 +462,7 @@ def load_corpus():
 
 def run(ctx):
     vf.proof_gate(ctx, ALLOWED_AXIOMS)
+    audit_axioms(ctx)
     binp, dbgp, drv = build(ctx)
     rc, out = vf.sh([binp, "gen", ctx.tier, str(ctx.seed)])
     if rc != 0:
